@@ -271,11 +271,14 @@ class LifeRecorder:
         self.trace = []
         self.on_event = on_event
         self._listened = []
+        self.only = None        # None: all ten events; else the subset of names to listen to
 
     def attach(self, session):
         from sqlalchemy import event
 
         for name in LIFECYCLE_EVENTS:
+            if self.only is not None and name not in self.only:
+                continue
             fn = self._mk(name)
             event.listen(session, name, fn)
             self._listened.append((session, name, fn))
